@@ -63,7 +63,10 @@ type Hooks struct {
 	// TxBodyDone is called (never blocking) when the transaction's callback has returned, before the
 	// storage engine ends the transaction
 	TxBodyDone func(tx *ProxyTx)
-	Op      func(tx *ProxyTx, kind string, n int64)
+	Op         func(tx *ProxyTx, kind string, n int64)
+	// FailOp is consulted after Op for operations that can report an error (also in read transactions):
+	// a non-nil error is returned by the operation instead of executing it
+	FailOp func(tx *ProxyTx, kind string, n int64) error
 }
 
 // Proxy wraps a DiskStore.
@@ -260,6 +263,11 @@ func (tx *ProxyTx) step(kind string, bucket string, failable bool) error {
 	n := tx.ops.Add(1)
 	if h := p.hooks.Load(); h != nil && h.Op != nil {
 		h.Op(tx, kind, n)
+	}
+	if h := p.hooks.Load(); h != nil && h.FailOp != nil && failable {
+		if err := h.FailOp(tx, kind, n); err != nil {
+			return err
+		}
 	}
 	plan := p.plan.Load()
 	if plan == nil {
